@@ -402,7 +402,11 @@ impl Scenario for C09 {
             p.set("dec", rng.below(9) as i64);
             plan_transport(&mut rng, &mut p, true);
             if rng.chance(3, 4) {
-                p.set("fault_at", rng.below(p.data.len() + 1) as i64);
+                // half of the faults land on offsets where the line reader does something special (around line ends,
+                // inside multi-byte characters, on the bytes of UTF-16 units that contain CR / LF bytes)
+                let offs = if rng.chance(1, 2) { crate::transport::interesting_offsets(&p.data, 4096) } else { vec![] };
+                let at = if offs.is_empty() { rng.below(p.data.len() + 1) } else { *rng.pick(&offs) + rng.below(2) };
+                p.set("fault_at", at as i64);
                 p.set("fault_kind", if rng.chance(1, 2) { rng.below(5) } else { rng.below(KINDS.len()) } as i64);
                 p.set("fault_sticky", rng.below(2) as i64);
                 p.faults.push("R4-hard-read-error".into());
